@@ -20,15 +20,18 @@ from vlib import graphs
 from vlib.cases import Case, Sub, evaluate as _evaluate
 from vlib.core import enc_csr, enc_list, enc_listlist, enc_bool, enc_ratlist, _exact, VERIF
 
-RULE = ('corpus first; exhaustive digraphs with self-loops n<=3 and undirected graphs with self-loops n<=4 '
-        '(quick: sampled n=4 digraphs with and without self-loops, undirected n=5 with and without; thorough: all '
-        'loop-free n=4 digraphs, more samples, n=5/6), a third of them with unsorted CSR rows; biadjacency '
-        'matrices up to 3x3, structured random graphs n<=12 (several components, isolated nodes, self-loops, '
-        'weights in {bool, 1, small integers, dyadic fractions}, sorted and unsorted CSR rows), degenerate stream '
-        '(empty, 1x1, asymmetric weights on a symmetric pattern) and a pinned out-of-domain stream (negative '
-        'weights, explicit zeros: run lines only); container formats csr / csc / coo / lil / dense ndarray; '
-        'x both connection modes x force_bipartite x directed in {None, True, False} x every single root '
-        '(int and numpy integer) and root lists (list and ndarray; sorted, unsorted with repetition, out of range). '
+RULE = ('corpus first. Quick tier: all digraphs with self-loops n<=3 (every single root on half of the n=3 ones, 2 sampled '
+        'roots on the other half), samples of n=4 digraphs (90 loop-free, 70 with self-loops), all undirected graphs '
+        'with self-loops n<=3 and a sample of 180/1024 of n=4, samples of undirected n=5 (with and without self-loops), '
+        '2 sampled single roots (int or numpy integer) from n=4 on, plus root lists (list / ndarray; sorted, unsorted '
+        'with repetition, out of range) and root=None; thorough: all loop-free n=4 digraphs and all undirected n<=5, '
+        'larger samples, n=5/6. A third of these graphs with unsorted CSR rows. Biadjacency matrices up to 3x3, '
+        'structured random graphs n<=12 (several components, isolated nodes, self-loops, weights in {bool, 1, small '
+        'integers, dyadic fractions}), random 2-colourable graphs n<=12 (a fifth spoiled), unions of cyclic pieces, '
+        'degenerate stream (empty, 1x1, asymmetric weights on a symmetric pattern, rectangular matrices handed to '
+        'cycles.py) and a pinned out-of-domain stream (negative weights, explicit zeros: run lines only); container '
+        'formats csr / csc / coo / lil / dense ndarray; both connection modes, force_bipartite, directed in '
+        '{None, True, False}. Graphs whose simple paths exceed 4000 keep only is_bipartite / is_acyclic. '
         'A case is non-trivial when the matrix has an edge and the answer is not an error; for break_cycles when '
         'the input has a cycle; distinct = distinct (function, matrix, format, arguments)')
 ASSUMPTIONS = [
@@ -37,6 +40,13 @@ ASSUMPTIONS = [
     'input domain of the spec lines: matrices without duplicate entries, stored values > 0 (explicit zeros and negative '
     'weights only in the pinned stream, judged by run lines); any of csr_matrix, csc_matrix, coo_matrix, lil_matrix, ndarray',
     'roots: int, numpy integer, list or ndarray of node numbers (a tuple and a negative number are outside)',
+    'containers: the five types check_format lists (csr_matrix, csc_matrix, coo_matrix, lil_matrix, ndarray); others '
+    '(csr_array, dia, bsr, dok) are outside: structure.py refuses them, cycles.py converts them',
+    'a matrix without any stored entry is refused by get_connected_components / is_connected / '
+    'get_largest_connected_component (ValueError, compared on both sides): connectivity of edgeless graphs is outside',
+    'break_cycles: the weights of the kept entries are checked on every run (values in the run line, subgraph conjunct '
+    'of the spec line), not proved: the traversal of the model works on the stored pattern',
+    'directed break_cycles with n > 8: no run line (CPython set order), counted as break_cycles:no-run-line in the evidence',
     'CPython enumerates a set of node numbers < 8 in increasing order (run lines of break_cycles on digraphs are '
     'restricted to n <= 8; larger inputs are judged by the spec line alone)',
     'scipy fancy indexing / tocsc / tocsr / diagonal / eliminate_zeros are the substrate (monitored through the outputs)',
@@ -257,8 +267,11 @@ def build(desc):
     elif f in ('is_acyclic', 'get_cycles'):
         directed = desc['directed']
         dtok = '_' if directed is None else enc_bool(directed)
-        ncc_d, lab_d = ext_cc(a, True, 'strong')
-        ncc_u, lab_u = ext_cc(a, False, 'strong')
+        if n == m:
+            ncc_d, lab_d = ext_cc(a, True, 'strong')
+            ncc_u, lab_u = ext_cc(a, False, 'strong')
+        else:                                    # scipy refuses a matrix that is not square: nothing to hand over
+            ncc_d, lab_d, ncc_u, lab_u = 0, [], 0, []
         sig = {'entry': f, 'directed': directed}
         if n == m:
             out.extend(contract_cases(('cyc', g), a, [(True, 'strong'), (False, 'strong')], desc))
@@ -279,11 +292,14 @@ def build(desc):
         dtok = '_' if directed is None else enc_bool(directed)
         rlist = None if root is None else ([root] if isinstance(root, int) else list(root))
         rtok = '_' if rlist is None else enc_list(rlist)
-        ncc_d, _ = ext_cc(a, True, 'strong')
-        ncc_u, _ = ext_cc(a, False, 'strong')
-        a0 = without_diagonal(a)
-        _, lab_d = ext_cc(a0, True, 'strong')
-        _, lab_u = ext_cc(a0, False, 'strong')
+        if n == m:
+            ncc_d, _ = ext_cc(a, True, 'strong')
+            ncc_u, _ = ext_cc(a, False, 'strong')
+            a0 = without_diagonal(a)
+            _, lab_d = ext_cc(a0, True, 'strong')
+            _, lab_u = ext_cc(a0, False, 'strong')
+        else:
+            ncc_d, ncc_u, lab_d, lab_u = 0, 0, [], []
         if n == m:
             out.extend(contract_cases(('cyc', g), a, [(True, 'strong'), (False, 'strong')], desc))
             out.extend(contract_cases(('cyc', enc_csr(a0)), a0, [(True, 'strong'), (False, 'strong')], desc))
@@ -338,8 +354,10 @@ def descs_cycles(a, rng, roots='all', directeds=None, with_break=True, fmt='csr'
     if directeds is None:
         # the flag that contradicts the matrix is an error (asymmetric, False) or a reinterpretation
         # (symmetric, True: every edge is a 2-cycle): sampled
-        symmetric = (a - a.T).nnz == 0
-        if symmetric:
+        symmetric = a.shape[0] == a.shape[1] and (a - a.T).nnz == 0
+        if a.shape[0] != a.shape[1]:
+            directeds = (None, True)
+        elif symmetric:
             directeds = (None, False, True) if rng.random() < 0.3 else (None, False)
         else:
             directeds = (None, True, False) if rng.random() < 0.15 else (None, True)
@@ -398,7 +416,8 @@ def weighted(rng, n, es, symmetric, m=None, mode=None):
 
 
 def too_many_paths(a, limit=4000):
-    """Upper bound on the number of simple paths the traversals of cycles.py enumerate (they are exponential)."""
+    """Do the traversals of cycles.py (which enumerate simple paths) stay small on this graph?  A cheap bound by the
+    largest degree first; when it says no (a star, a hub), the simple paths are counted, with a cap."""
     n = a.shape[0]
     deg = max([1] + [int(a.indptr[i + 1] - a.indptr[i]) for i in range(n)])
     total, cur = 0, 1
@@ -406,7 +425,21 @@ def too_many_paths(a, limit=4000):
         cur *= max(1, min(deg, n - k))
         total += cur
         if total > limit:
-            return True
+            break
+    else:
+        return False
+    rows = [[int(j) for j in a.indices[a.indptr[i]:a.indptr[i + 1]]] for i in range(n)]
+    count = 0
+    for s0 in range(n):
+        stack = [(s0, (s0,))]
+        while stack:
+            u, path = stack.pop()
+            count += 1
+            if count > limit:
+                return True
+            for v in rows[u]:
+                if v not in path:
+                    stack.append((v, path + (v,)))
     return False
 
 
@@ -535,6 +568,35 @@ def build_descs(ctx):
             b = graphs.unsorted_copy(b, rng)
         out.extend(descs_connectivity(b, fbs=(True,), fmt=pick_format(0.35)))
         ctx.count('graph:biadjacency-random')
+    # 2-colourable graphs with permuted node numbers (the True / reassembly branch of is_bipartite), a fifth of them
+    # spoiled by one edge inside a class
+    for _ in range(70 if quick else 700):
+        n = rng.randint(2, 12)
+        side = [rng.randrange(2) for _ in range(n)]
+        es = set()
+        p_edge = rng.choice([0.15, 0.3, 0.5])
+        for i in range(n):
+            for j in range(i + 1, n):
+                if side[i] != side[j] and rng.random() < p_edge:
+                    es.add((i, j)); es.add((j, i))
+        kind = 'two-colourable'
+        if rng.random() < 0.2:
+            same = [(i, j) for i in range(n) for j in range(i + 1, n) if side[i] == side[j]]
+            if same:
+                i, j = rng.choice(same)
+                es.add((i, j)); es.add((j, i))
+                kind = 'two-colourable-spoiled'
+        a = weighted(rng, n, sorted(es), True)
+        if rng.random() < 0.5:
+            a = graphs.unsorted_copy(a, rng)
+        fm = pick_format(0.3)
+        out.append({'f': 'is_bipartite', 'matrix': mat_desc(a), 'format': fm})
+        out.append({'f': 'is_acyclic', 'matrix': mat_desc(a), 'format': fm, 'directed': None})
+        ctx.count('graph:' + kind)
+    # not square: scipy refuses it (ValueError), unless a "diagonal" entry answers first
+    for b in (mk(2, [(0, 1), (1, 2)], m=3), mk(3, [(0, 0), (1, 1), (2, 0)], m=2)):
+        out.extend(descs_cycles(b, rng, roots='all'))
+        ctx.count('graph:rectangular-for-cycles')
     # degenerate stream
     for n in (1, 2, 3):
         for fm in ('csr', 'dense'):
@@ -587,7 +649,7 @@ def corpus_descs():
     return out
 
 
-def cases_of(descs):
+def cases_of(descs, ctx=None):
     seen = set()
     cases = []
     for d in descs:
@@ -600,6 +662,8 @@ def cases_of(descs):
                 if c.spec in seen:          # the same scipy answer, consumed by several functions
                     continue
                 seen.add(c.spec)
+            if ctx is not None and c.run is None and c.sig.get('entry') == 'break_cycles':
+                ctx.count('break_cycles:no-run-line(directed,n>%d)' % SET_ORDER_MAX_N)
             cases.append(c)
     return cases
 
@@ -608,7 +672,7 @@ def run(ctx):
     descs = corpus_descs()
     ctx.count('corpus', len(descs))
     descs += build_descs(ctx)
-    evaluate(ctx, cases_of(descs))
+    evaluate(ctx, cases_of(descs, ctx))
     ctx.exhaustive = False
 
 
